@@ -206,7 +206,8 @@ CHECKS = {
         "technique": "property-based testing (rapid) in testing/synctest bubbles with counting/gauge oracle; race-detector runs",
         "rule": ("kinds parallel (bubble), parallel-race, first-error-storm (50-300 quick failing runs per case on real goroutines), gomaxprocs (parallelism <= 0 after runtime.GOMAXPROCS was lowered). non-trivial = n > parallelism >= 2 with non-uniform latencies or at least one failing index; distinct = distinct plan JSON; R=3/8"),
         "assumptions": ["testing/synctest", "Go race detector", "rapid v1.3.0; go1.26.8"],
-        "jobs": [{"pkg": "c13par", "run": "TestParallelBubble|TestFirstErrorStorm|TestGomaxprocs", "kinds": ["parallel", "first-error-storm", "gomaxprocs"], "scale_thorough": 8, "shards_thorough": 16, "replay_reps": 20},
+        "jobs": [{"pkg": "c13par", "run": "TestCancelAtEntryStorm", "kinds": ["cancel-at-entry-storm"], "shards_quick": 2, "scale_thorough": 10, "shards_thorough": 8},
+                 {"pkg": "c13par", "run": "TestParallelBubble|TestFirstErrorStorm|TestGomaxprocs", "kinds": ["parallel", "first-error-storm", "gomaxprocs"], "scale_thorough": 8, "shards_thorough": 16, "replay_reps": 20},
                  {"pkg": "c13par", "goarch": "386", "run": "TestParallelBubble|TestFirstErrorStorm", "kinds": ["parallel", "first-error-storm"], "scale_quick": 0.1, "scale_thorough": 1, "shards_thorough": 2},
                  {"pkg": "c13par", "run": "TestParallelRace", "race": True, "kinds": ["parallel-race"], "scale_thorough": 8, "shards_thorough": 8, "replay_reps": 20}],
     },
@@ -298,7 +299,7 @@ RULE_ADDENDA = {
     "C10": " Close errors include context.Canceled / DeadlineExceeded themselves; kind pipe-gc (a properly closed sender's error survives GCs and finalizers); the package also runs for GOARCH=386.",
     "C11": " Plans also include sources whose Close takes time, batchSize MaxInt, 'long' streams of hundreds of batches with a bound on batch capacity, and BatchFunc predicates that take 2 x maxWait (old timers); a Next that has not returned after 10 s of active time is a 'stuck' violation. Kind batch-lib-source: Batch over the library's own streams (stream.Chan over a channel that may stay open, FromIterator, a Pipe, a Batch of a Batch): partition, sizes, end, and Close returning at any moment (non-trivial = at least 2 batches, or closed before the end).",
     "C12": " Kind merge-real-clock (own process, real goroutines, no bubble): chans.Merge of 0-12 inputs, chans.Replicate to 0-5 destinations, stream.Merge with an optional failing input and an optional early Close: interleaving / completeness / first error / ownership, 10 s limit (non-trivial = at least 2 inputs or destinations). Inputs may be the library's own streams or non-comparable struct values; failing inputs may fail at the same instant with errors of different concrete types; kind stream-merge-wide: 300 inputs that each have to deliver before any of them ends; kind stream-merge-error-busy-sibling: one input fails while the others sit in a Next call that ignores its context and returns only after the consumer has seen the failure (the error must not wait for them). Also runs for GOARCH=386.",
-    "C13": " Errors of mixed concrete types, n up to 8192 incl. multiples of 64, nested Do/Map inside the callbacks. Also runs for GOARCH=386.",
+    "C13": " Kind cancel-at-entry-storm (own process, real goroutines): the caller's context is cancelled around the instant DoContext / MapContext is entered, 2000-8000 rounds per case with a swept offset: nil means every call was made and the results are complete, anything else is the context's error (non-trivial = both outcomes occurred). Parallelism also 65 / 130 / 1000 with 2*par+3 slow calls. Errors of mixed concrete types, n up to 8192 incl. multiples of 64, nested Do/Map inside the callbacks. Also runs for GOARCH=386.",
     "C14": " Kind map-real-clock (own process, real goroutines, no bubble): MapIterator and MapStream with spinning f (later items finish first), source / f failures, early Close: order, exactly-once, gauge bound, error provenance, ownership, 10 s limit (non-trivial = n > parallelism >= 2). Also: 'lockstep' sources that only produce once the consumer has taken the previous result (bubble, and kind map-lockstep on the real clock), contexts that are already done at construction, f errors with a value attached. Also runs for GOARCH=386.",
     "C15": " Heap elements may hold pointers; setups include a big deque drained to a quarter; one call past the end may precede the mid ops; a second iterator may be open.",
     "C16": " Kind cond-real-storm (own process, real clock, no bubble): per round a waiter enters Wait while a Broadcast made without the lock is aimed at that instant, then - once the lock can be taken, i.e. the waiter has released it - one Signal; 0-4 further goroutines call Signal / Broadcast without the lock; everybody is through within 10 s (always non-trivial). The cond may be stored by value after construction ('by_value'); broadcast-storm variants with a shared RLocker and bursts of simultaneous Signals. Also runs for GOARCH=386.",
